@@ -137,36 +137,84 @@ func c05facts(c *ctx) (string, error) {
 	}
 	var ladder []string
 	sawPanic := false
+	argName := lenFn.Type.Params.List[0].Names[0].Name
+	// one rung: `arg <= const` guarding a single `return n`
+	rung := func(cond ast.Expr, body []ast.Stmt) error {
+		for {
+			if pe, ok := cond.(*ast.ParenExpr); ok {
+				cond = pe.X
+				continue
+			}
+			break
+		}
+		be, ok := cond.(*ast.BinaryExpr)
+		if !ok || be.Op != token.LEQ || len(body) != 1 {
+			return fmt.Errorf("quicvarint.Len: a rung is not `%s <= const { return n }`", argName)
+		}
+		if id, ok := be.X.(*ast.Ident); !ok || id.Name != argName {
+			return fmt.Errorf("quicvarint.Len: comparison is not on the argument")
+		}
+		thr, err := c05eval(be.Y, venv)
+		if err != nil {
+			return fmt.Errorf("quicvarint.Len: %v", err)
+		}
+		ret, ok := body[0].(*ast.ReturnStmt)
+		if !ok || len(ret.Results) != 1 {
+			return fmt.Errorf("quicvarint.Len: branch is not a single return")
+		}
+		n, err := c05eval(ret.Results[0], venv)
+		if err != nil {
+			return fmt.Errorf("quicvarint.Len: %v", err)
+		}
+		ladder = append(ladder, fmt.Sprintf("(%d, %d)", thr, n))
+		return nil
+	}
+	isPanic := func(st ast.Stmt) bool {
+		es, ok := st.(*ast.ExprStmt)
+		if !ok {
+			return false
+		}
+		call, ok := es.X.(*ast.CallExpr)
+		if !ok {
+			return false
+		}
+		id, ok := call.Fun.(*ast.Ident)
+		return ok && id.Name == "panic"
+	}
 	for _, st := range lenFn.Body.List {
 		switch s := st.(type) {
 		case *ast.IfStmt:
-			be, ok := s.Cond.(*ast.BinaryExpr)
-			if !ok || be.Op != token.LEQ || s.Else != nil || s.Init != nil || len(s.Body.List) != 1 {
+			if s.Else != nil || s.Init != nil {
 				return "", fmt.Errorf("quicvarint.Len: unexpected if shape")
 			}
-			if id, ok := be.X.(*ast.Ident); !ok || id.Name != lenFn.Type.Params.List[0].Names[0].Name {
-				return "", fmt.Errorf("quicvarint.Len: comparison is not on the argument")
+			if err := rung(s.Cond, s.Body.List); err != nil {
+				return "", err
 			}
-			thr, err := c05eval(be.Y, venv)
-			if err != nil {
-				return "", fmt.Errorf("quicvarint.Len: %v", err)
+		case *ast.SwitchStmt: // the same ladder written as a tagless switch
+			if s.Tag != nil || s.Init != nil {
+				return "", fmt.Errorf("quicvarint.Len: unexpected switch shape")
 			}
-			ret, ok := s.Body.List[0].(*ast.ReturnStmt)
-			if !ok || len(ret.Results) != 1 {
-				return "", fmt.Errorf("quicvarint.Len: branch is not a single return")
+			for _, cl := range s.Body.List {
+				cc := cl.(*ast.CaseClause)
+				if cc.List == nil { // default
+					if len(cc.Body) == 1 && isPanic(cc.Body[0]) {
+						sawPanic = true
+						continue
+					}
+					return "", fmt.Errorf("quicvarint.Len: default clause is not a panic")
+				}
+				if len(cc.List) != 1 {
+					return "", fmt.Errorf("quicvarint.Len: multi-condition case")
+				}
+				if err := rung(cc.List[0], cc.Body); err != nil {
+					return "", err
+				}
 			}
-			n, err := c05eval(ret.Results[0], venv)
-			if err != nil {
-				return "", fmt.Errorf("quicvarint.Len: %v", err)
-			}
-			ladder = append(ladder, fmt.Sprintf("(%d, %d)", thr, n))
-		case *ast.ExprStmt:
-			call, ok := s.X.(*ast.CallExpr)
-			if id, isID := call.Fun.(*ast.Ident); !ok || !isID || id.Name != "panic" {
-				return "", fmt.Errorf("quicvarint.Len: unexpected statement")
-			}
-			sawPanic = true
 		default:
+			if isPanic(st) {
+				sawPanic = true
+				continue
+			}
 			return "", fmt.Errorf("quicvarint.Len: unexpected statement %T", st)
 		}
 	}
@@ -223,7 +271,15 @@ func c05facts(c *ctx) (string, error) {
 		if !ok || found {
 			return true
 		}
-		if id, ok := sw.Tag.(*ast.Ident); !ok || id.Name != "t" {
+		// the switch over the frame type is the one with a case that closes the connection
+		hasClose := false
+		ast.Inspect(sw, func(m ast.Node) bool {
+			if se, ok := m.(*ast.SelectorExpr); ok && se.Sel.Name == "CloseWithError" {
+				hasClose = true
+			}
+			return true
+		})
+		if !hasClose || sw.Tag == nil {
 			return true
 		}
 		found = true
@@ -255,7 +311,7 @@ func c05facts(c *ctx) (string, error) {
 		return false
 	})
 	if !found || len(reserved) == 0 {
-		return "", fmt.Errorf("frameParser.ParseNext: no `switch t` with a CloseWithError case")
+		return "", fmt.Errorf("frameParser.ParseNext: no switch over the frame type with a CloseWithError case")
 	}
 	sort.Slice(reserved, func(i, j int) bool { return reserved[i] < reserved[j] })
 	sort.Slice(returned, func(i, j int) bool { return returned[i] < returned[j] })
@@ -266,17 +322,51 @@ func c05facts(c *ctx) (string, error) {
 	if err != nil {
 		return "", err
 	}
-	ifs, ok := ps.Body.List[0].(*ast.IfStmt)
-	if !ok {
-		return "", fmt.Errorf("parseSettingsFrame: first statement is not the size check")
+	var capv uint64
+	capFound := false
+	// constants declared inside the function are constants too
+	for _, st := range ps.Body.List {
+		ds, ok := st.(*ast.DeclStmt)
+		if !ok {
+			continue
+		}
+		if gd, ok := ds.Decl.(*ast.GenDecl); ok && gd.Tok == token.CONST {
+			for _, sp := range gd.Specs {
+				vs := sp.(*ast.ValueSpec)
+				for i, id := range vs.Names {
+					if i < len(vs.Values) {
+						if v, err := c05eval(vs.Values[i], h3env); err == nil {
+							h3env[id.Name] = v
+						}
+					}
+				}
+			}
+		}
 	}
-	be, ok := ifs.Cond.(*ast.BinaryExpr)
-	if !ok || be.Op != token.GTR {
-		return "", fmt.Errorf("parseSettingsFrame: size check is not `l > const`")
+	for _, st := range ps.Body.List {
+		ifs, ok := st.(*ast.IfStmt)
+		if !ok {
+			continue
+		}
+		be, ok := ifs.Cond.(*ast.BinaryExpr)
+		if !ok {
+			continue
+		}
+		if _, isParam := be.X.(*ast.Ident); !isParam {
+			continue
+		}
+		v, err := c05eval(be.Y, h3env)
+		if err != nil {
+			continue
+		}
+		if be.Op != token.GTR {
+			return "", fmt.Errorf("parseSettingsFrame: size check is not `length > const`")
+		}
+		capv, capFound = v, true
+		break
 	}
-	capv, err := c05eval(be.Y, h3env)
-	if err != nil {
-		return "", fmt.Errorf("parseSettingsFrame: %v", err)
+	if !capFound {
+		return "", fmt.Errorf("parseSettingsFrame: no size check against a constant")
 	}
 	fmt.Fprintf(&b, "/-- `if l > settingsCap` in parseSettingsFrame -/\ndef settingsCap : Nat := %d\n\n", capv)
 
